@@ -22,7 +22,7 @@ META = dict(
     rule="case = (file size, modulus, method, abstract Range header); distinct = hash of (cfg, recorded response); non-trivial = the header is present",
 )
 
-BAD_KINDS = ("dash", "num", "alpha", "neg", "plus", "under", "space", "three")
+BAD_KINDS = ("dash", "num", "alpha", "neg", "plus", "under", "three")
 _state = {}
 
 
@@ -274,7 +274,7 @@ def run_case(cfg, workdir, rng=None, raw_header=None):
 
 
 # ----------------------------------------------------------------------------- classification (fingerprints only)
-LENIENT = {"neg", "plus", "under", "space"}     # number spellings Python's int() accepts but 1*DIGIT does not
+LENIENT = {"neg", "plus", "under"}     # number spellings Python's int() accepts but 1*DIGIT does not
 
 
 def input_class(cfg):
@@ -284,7 +284,7 @@ def input_class(cfg):
         return "absent"
     if h["unit"] != "bytes":
         return "unit-" + h["unit"]
-    real = [s for s in h["specs"] if s["k"] != "empty"]
+    real = [dict(s, k="ab") if s["k"] == "space" else s for s in h["specs"] if s["k"] != "empty"]
     if not real:
         return "empty-range-set"
     bad = sorted({s["k"] for s in real if s["k"] in BAD_KINDS})
@@ -340,7 +340,7 @@ def random_case(rng):
         elif r < 0.93:
             specs.append(dict(k="empty", a=0, b=0))
         else:
-            k = rng.choice(BAD_KINDS)
+            k = rng.choice(BAD_KINDS + ("space", "space"))
             specs.append(dict(k=k, a=1 if k == "neg" else 0, b=0 if k == "neg" else 1))
     unit = rng.choice(["bytes"] * 12 + ["Bytes", "other", "noeq"])
     present = rng.random() < 0.97
